@@ -1,4 +1,7 @@
 import WpModel.Drive.Loop
 import WpModel.Drive.C14
+import WpModel.Drive.C14Tags
+import WpModel.Drive.C14Groups
 
-def main : IO Unit := Wp.Drive.runDriver [Wp.Drive.C14.handle]
+def main : IO Unit :=
+  Wp.Drive.runDriver [Wp.Drive.C14.handle, Wp.Drive.C14Tags.handle, Wp.Drive.C14Groups.handle]
